@@ -63,6 +63,9 @@ typedef struct {
     int64_t deadline; /* virtual ns, -1 = none */
     uint64_t idle;    /* loads since the last progress step of anybody */
     uint64_t epoch;
+    int stall_at;            /* hooks until the actor is held back (0 = not armed) */
+    uint64_t stall_steps;    /* for how many global steps */
+    uint64_t stalled_until;  /* not eligible before this step (unless nobody else is) */
     pthread_cond_t cv;
     pthread_t th;
 } actor_t;
@@ -206,17 +209,39 @@ static int pick(int include_me)
     for (int round = 0;; round++) {
         int c[MAXA], n = 0, ci[MAXA], ni = 0;
         fire_timers();
+        int cs[MAXA], ns = 0; /* held back on purpose (abtv_stall_within) */
         for (int i = 0; i < nact; i++) {
             int ok = (A[i].st == ST_READY) || (i == me && include_me);
             if (!ok)
                 continue;
-            if (idle_of(i) > IDLE_T)
+            if (A[i].stalled_until > g_steps)
+                cs[ns++] = i;
+            else if (idle_of(i) > IDLE_T)
                 ci[ni++] = i;
             else
                 c[n++] = i;
         }
         if (n)
             return c[xs(&g_sched_rng) % (uint64_t)n];
+        if (ns && !ni) {
+            /* only held-back actors can run: release them */
+            for (int k = 0; k < ns; k++)
+                A[cs[k]].stalled_until = 0;
+            return cs[xs(&g_sched_rng) % (uint64_t)ns];
+        }
+        if (ns && ni) {
+            /* the others are only polling: once they have polled for a while the
+             * held-back actor is released */
+            int allpoll = 1;
+            for (int k = 0; k < ni; k++)
+                if (idle_of(ci[k]) < 4 * IDLE_T)
+                    allpoll = 0;
+            if (allpoll) {
+                for (int k = 0; k < ns; k++)
+                    A[cs[k]].stalled_until = 0;
+                return cs[xs(&g_sched_rng) % (uint64_t)ns];
+            }
+        }
         /* everybody runnable is polling (or nobody is runnable): let time pass */
         int64_t d = min_deadline();
         if (d >= 0) {
@@ -284,6 +309,12 @@ static void point_locked(int op, int force)
     }
     if (nact == 1 || t_noswitch > 0)
         return;
+    if (A[me].stall_at > 0 && --A[me].stall_at == 0) {
+        A[me].stalled_until = g_steps + A[me].stall_steps;
+        force = 1;
+    }
+    if (A[me].stalled_until > g_steps)
+        force = 1;
     int sw = force || idle_of(me) > IDLE_T || (int)(xs(&g_sched_rng) % 1000) < g_sw_permille;
     if (!sw)
         return;
@@ -314,6 +345,18 @@ static void hook(const void *addr, int op)
             __real_nanosleep(&ts, NULL);
         }
     }
+}
+/* Hold the calling actor back at one of its next `maxhooks` hooked operations
+ * (chosen by the seeded scheduler RNG) for `steps` global steps, so that the
+ * other actors run through a window that is only a few instructions wide. */
+void abtv_stall_within(int maxhooks, int steps)
+{
+    if (!SERIAL() || maxhooks <= 0)
+        return;
+    LOCK();
+    A[me].stall_at = 1 + (int)(xs(&g_sched_rng) % (uint64_t)maxhooks);
+    A[me].stall_steps = (uint64_t)steps;
+    UNLOCK();
 }
 void abtv_point(void)
 {
@@ -872,6 +915,28 @@ int __wrap_munmap(void *p, size_t n)
 }
 
 /* ------------------------------------------------------------------ life cycle */
+static void *watchdog(void *p)
+{
+    (void)p;
+    uint64_t last = 0;
+    int same = 0;
+    for (;;) {
+        struct timespec ts = { 1, 0 };
+        __real_nanosleep(&ts, NULL);
+        if (!g_active || g_mode != ABTV_MODE_SERIAL) {
+            same = 0;
+            continue;
+        }
+        uint64_t now = g_steps + (g_q << 32);
+        if (now == last) {
+            if (++same >= 8)
+                abtv_fail("crash:hang-without-atomic-step", ABTV_EXIT_CRASH);
+        } else
+            same = 0;
+        last = now;
+    }
+    return NULL;
+}
 void abtv_init(void)
 {
     const char *m = getenv("ABTV_MODE");
@@ -902,6 +967,10 @@ void abtv_init(void)
         sigaction(sigs[i], &sa, NULL);
     if (g_mode != ABTV_MODE_OFF)
         ABTD_verif_hook = hook;
+    if (g_mode == ABTV_MODE_SERIAL) {
+        pthread_t w;
+        __real_pthread_create(&w, NULL, watchdog, NULL);
+    }
 }
 void abtv_run_begin(const char *scn, uint64_t seed)
 {
